@@ -402,6 +402,30 @@ func ruleSchema(r *Run) {
 
 	// violated[T] = some field leading to T is itself a violation (T's obligations are subsumed)
 	violatedField := map[*types.Var]bool{}
+	// A struct obtained by converting another struct type with identical fields
+	// (TableCellBorder(parseBorderAttributes(attrs))) is filled field by field from the source type.
+	for _, f := range m.Funcs {
+		allInstrs(f, func(in ssa.Instruction) {
+			ct, ok := in.(*ssa.ChangeType)
+			if !ok {
+				return
+			}
+			from, fst := structOf(ct.X.Type())
+			to, tst := structOf(ct.Type())
+			if from == nil || to == nil || fst == nil || tst == nil || from == to || fst.NumFields() != tst.NumFields() {
+				return
+			}
+			m.Allocs[to] = true
+			for i := 0; i < fst.NumFields(); i++ {
+				a, b := fst.Field(i), tst.Field(i)
+				attrStores[b] = append(attrStores[b], attrStores[a]...)
+				if anyStore[a] {
+					anyStore[b] = true
+				}
+			}
+		})
+	}
+
 	nElem, nAttr, nSub := 0, 0, 0
 	// process structs in BFS order (ws.Structs is DFS preorder from roots: parents first)
 	subsumed := map[*types.Named]bool{}
